@@ -92,6 +92,47 @@ theorem sysHeight_le (ch : List Diff) (hnd : NoDrainChain ch) (a : Addr) (hs : i
       simp at this
       exact ⟨h, hh, by omega⟩
 
+/-- a system contract that is empty at block `n` has no record, or one created after `n` -/
+theorem sysHeight_gt (ch : List Diff) (a : Addr) (n : Nat) (hn : n < ch.length)
+    (he : ¬ NonEmpty (absAt ch n) a) (h : Nat) (e : sysHeight ch a = some h) : n < h := by
+  induction ch with
+  | nil => simp at hn
+  | cons d rest ih =>
+    by_cases hlt : n < rest.length
+    · rw [absAt_cons_lt d rest n hlt] at he
+      unfold sysHeight at e
+      by_cases hk : a ∈ d.storage.map (·.1)
+      · simp only [hk, if_true] at e
+        by_cases hne : NonEmpty (absOf (d :: rest)) a
+        · simp only [hne, if_true] at e
+          rcases hs : sysHeight rest a with _ | h'
+          · simp [hs] at e; omega
+          · simp [hs] at e; subst e; exact ih hlt he hs
+        · simp [hne] at e
+      · simp only [hk, if_false] at e
+        exact ih hlt he e
+    · rw [absAt_ge (d :: rest) n (by simp; omega)] at he
+      have := (sysHeight_isSome_iff (d :: rest) a).mp (by simp [e])
+      exact absurd this he
+
+/-- the system contracts have class hash 0 and nonce 0 in the abstract state (they never appear in
+`DeployedContracts`, `ReplacedClasses`, `Nonces`) -/
+theorem system_cls_nonce_zero (ch : List Diff) (hwf : ∀ d ∈ ch, d.WF) (a : Addr) (ha : isSystem a = true) :
+    (absOf ch).cls a = 0 ∧ (absOf ch).nonce a = 0 := by
+  induction ch with
+  | nil => exact ⟨rfl, rfl⟩
+  | cons d rest ih =>
+    have hn := (hwf d List.mem_cons_self).noSys a ha
+    have ih' := ih (fun x hx => hwf x (List.mem_cons_of_mem _ hx))
+    show ((absOf rest).apply rest.length d).cls a = 0 ∧ ((absOf rest).apply rest.length d).nonce a = 0
+    simp only [AbsSt.apply, (alook_eq_none_iff _ _).mpr hn.1, (alook_eq_none_iff _ _).mpr hn.2.1,
+      (alook_eq_none_iff _ _).mpr hn.2.2, Option.getD_none]
+    exact ih'
+
+theorem system_cls_nonce_zero_at (ch : List Diff) (hwf : ∀ d ∈ ch, d.WF) (a : Addr) (ha : isSystem a = true) (n : Nat) :
+    (absAt ch n).cls a = 0 ∧ (absAt ch n).nonce a = 0 :=
+  system_cls_nonce_zero _ (fun d hd => hwf d (List.mem_of_mem_drop hd)) a ha
+
 /-! ### histories with a per-block precondition -/
 
 /-- every `store` of the history meets `P` relative to the chain at that moment -/
@@ -305,5 +346,53 @@ theorem nsys_histRead (cfg : Cfg) (ch : List Diff) (s : NState) (hs : NSys cfg c
     rw [hs.sys a ha, hh]
     simp [hle]
   simp only [NState.histRead, hd, if_true, hv]
+
+/-- existence of a system contract on the historical views of the new backend, no block draining it:
+class hash and nonce read 0 at every block at which the contract has a non-zero slot, not-found at
+the others -/
+theorem nsys_histRead_existence (cfg : Cfg) (hc : cfg.sysProbeFix = false) (ch : List Diff) (s : NState)
+    (hs : NSys cfg ch s) (n : Nat) (hn : n < ch.length) (a : Addr) (ha : isSystem a = true) :
+    (NonEmpty (absAt ch n) a →
+      NState.histRead cfg s n (.classHash a) = .ok 0 ∧ NState.histRead cfg s n (.nonce a) = .ok 0) ∧
+    (¬ NonEmpty (absAt ch n) a →
+      NState.histRead cfg s n (.classHash a) = .notfound ∧ NState.histRead cfg s n (.nonce a) = .notfound) := by
+  have hz := system_cls_nonce_zero_at ch hs.inv.wf a ha n
+  have hv1 : newHistorical (lget s.hist (.classHash a)) n = 0 := by
+    rw [ninv_histValue cfg ch s hs.inv (.classHash a) n]; exact hz.1
+  have hv2 : newHistorical (lget s.hist (.nonce a)) n = 0 := by
+    rw [ninv_histValue cfg ch s hs.inv (.nonce a) n]; exact hz.2
+  constructor
+  · intro hne
+    obtain ⟨h, hh, hle⟩ := sysHeight_le ch hs.nodrain a ha n hne
+    have hd : s.deployedAt cfg a n = true := by
+      unfold NState.deployedAt
+      rw [hs.sys a ha, hh]
+      simp [hle]
+    simp only [NState.histRead, hd, if_true, hv1, hv2, and_self]
+  · intro he
+    have hd : s.deployedAt cfg a n = false := by
+      unfold NState.deployedAt
+      rw [hs.sys a ha, hc]
+      rcases hx : sysHeight ch a with _ | h
+      · simp
+      · have := sysHeight_gt ch a n hn he h hx
+        simp; omega
+    simp [NState.histRead, hd]
+
+/-- … and on the head view: 0 when the contract has a non-zero slot, not-found otherwise -/
+theorem nsys_headRead_existence (cfg : Cfg) (ch : List Diff) (s : NState) (hs : NSys cfg ch s) (a : Addr)
+    (ha : isSystem a = true) :
+    (NonEmpty (absOf ch) a → s.headRead (.classHash a) = .ok 0 ∧ s.headRead (.nonce a) = .ok 0) ∧
+    (¬ NonEmpty (absOf ch) a → s.headRead (.classHash a) = .notfound ∧ s.headRead (.nonce a) = .notfound) := by
+  constructor
+  · intro hne
+    obtain ⟨h, hh⟩ := Option.isSome_iff_exists.mp ((sysHeight_isSome_iff ch a).mpr hne)
+    simp [NState.headRead, hs.sys a ha, hh]
+  · intro he
+    have : sysHeight ch a = none := by
+      rcases hx : sysHeight ch a with _ | h
+      · rfl
+      · exact absurd ((sysHeight_isSome_iff ch a).mp (by simp [hx])) he
+    simp [NState.headRead, hs.sys a ha, this]
 
 end Juno.C03
